@@ -688,3 +688,7 @@ M('c09h-outbound-tracker-diverges', 'C09', 'break', 'htp/htp_connection.c',
   '    conn->out_data_counter += len;    ', '    if (len > 0) conn->out_data_counter += len - 0;', 'C09.h')
 M('c06g-res-chunk-end-diverges', 'C06', 'break', RS,
   '        if (connp->out_next_byte == LF) {\n            connp->out_state = htp_connp_RES_BODY_CHUNKED_LENGTH;', '        if (connp->out_next_byte == LF || connp->out_next_byte == CR) {\n            connp->out_state = htp_connp_RES_BODY_CHUNKED_LENGTH;', 'C06.g')
+
+M('c03h-one-sided-param-rename-keep', 'C03', 'keep', RS,
+  'static void htp_connp_res_clear_buffer(htp_connp_t *connp) {\n    connp->out_current_consume_offset = connp->out_current_read_offset;\n\n    if (connp->out_buf != NULL) {\n        free(connp->out_buf);\n        connp->out_buf = NULL;\n        connp->out_buf_size = 0;',
+  'static void htp_connp_res_clear_buffer(htp_connp_t *parser) {\n    parser->out_current_consume_offset = parser->out_current_read_offset;\n\n    if (!(parser->out_buf == NULL)) {\n        free(parser->out_buf);\n        parser->out_buf = NULL;\n        parser->out_buf_size = 0;')
